@@ -4,7 +4,8 @@ that every pre/post spike history can be produced.  After every step the trainer
 parts (conn.updater.weight.pos / .neg) are recorded; at the end the update is applied and the weight change recorded.
 
 case = {"trainer": "STDP"|"StableSTDP"|"TripletSTDP"|"StableTripletSTDP"|"MSTDP"|"MSTDPET", "mode": "cumulative"|"nearest",
-        "hp": {...trainer hyperparameters...}, "dt": float, "conn": "dense"|"direct"|"lateral", "n_in": int, "n_out": int,
+        "hp": {...trainer hyperparameters...}, "dt": float, "conn": "dense"|"direct"|"lateral"|"conv" (+ "conv": {height, width, channels,
+        filters, kernel, stride, padding, dilation}; pre/post flattened row-major), "n_in": int, "n_out": int,
         "B": int, "kmax": int|None (max delay in steps; None = connection without delays), "delays": [[k...]...] (steps,
         weight-shaped), "delayed": bool, "reduction": "sum"|"mean"|"amax"|None, "pre": [T][B][n_in] 0/1,
         "post": [T][B][n_out] 0/1, "signal": None | [T] floats | [T][B] floats, "scale": float,
@@ -101,13 +102,18 @@ def build(case):
         conn = neural.LinearDirect((case["n_in"],), dt, synapse=syn, delay=delay, batch_size=B)
     elif case["conn"] == "lateral":
         conn = neural.LinearLateral((case["n_in"],), dt, synapse=syn, delay=delay, batch_size=B)
+    elif case["conn"] == "conv":
+        cv = case["conv"]
+        conn = neural.Conv2D(cv["height"], cv["width"], cv["channels"], cv["filters"], dt, tuple(cv["kernel"]),
+                             stride=tuple(cv.get("stride", [1, 1])), padding=tuple(cv.get("padding", [0, 0])),
+                             dilation=tuple(cv.get("dilation", [1, 1])), synapse=syn, delay=delay, batch_size=B)
     else:
         raise ValueError(case["conn"])
     with torch.no_grad():
         conn.weight = torch.full_like(conn.weight, 0.5)
         if delay is not None:
             conn.delay = (torch.tensor(case["delays"], dtype=torch.float64) * dt).reshape(conn.delay.shape)
-    neuron = ScriptedNeuron((case["n_out"],), dt, batch_size=B)
+    neuron = ScriptedNeuron(tuple(conn.outshape), dt, batch_size=B)
     layer = neural.Serial(conn, neuron)
     conn.updater = conn.defaultupdater()
     trainer = mk_trainer(case)
@@ -127,10 +133,13 @@ def run(case):
     T, B = len(case["pre"]), case["B"]
     w0 = conn.weight.detach().clone()
     neuron.script = [torch.tensor(p, dtype=torch.bool) for p in case["post"]]
-    steps = []
+    steps, synpre = [], []
     sig = case.get("signal")
     for t in range(T):
-        x = torch.tensor(case["pre"][t], dtype=torch.bool).reshape(B, case["n_in"])
+        x = torch.tensor(case["pre"][t], dtype=torch.bool).reshape(B, *conn.inshape)
+        if case["conn"] == "conv":
+            # the presynaptic trains as the synapse receives them (unfolded input): B x N x L
+            synpre.append(conn.like_synaptic(x).to(torch.int64).tolist())
         out = layer(x)
         assert torch.equal(out.reshape(B, -1), torch.tensor(case["post"][t], dtype=torch.bool).reshape(B, -1))
         if sig is None:
@@ -150,7 +159,7 @@ def run(case):
     wb = conn.weight.detach().clone()
     conn.update()
     return {"ok": True, "steps": steps, "dw": flat(conn.weight.detach() - wb), "wshape": list(conn.weight.shape),
-            "w_total": flat(conn.weight.detach() - w0)}
+            "w_total": flat(conn.weight.detach() - w0), "synpre": synpre}
 
 
 def handler(payload):
